@@ -588,8 +588,10 @@ def check_get_descriptor(chk, F):
     h["bitcoin::Script::len"] = lambda m_, a, c: deref(a[0]).bytes().length
 
     class KeyBytes(object):
+        """the bytes of a script as an opaque token of known length"""
         def __init__(self, script):
             self.script = script
+            self.length = script.bytes().length
     h["bitcoin::Script::to_bytes"] = lambda m_, a, c: KeyBytes(deref(a[0]))
 
     def kb_index(m_, a, c):
